@@ -228,6 +228,8 @@ struct kept { MPT_STRUCT(path) path; uint8_t *snap; size_t snaplen; };
 static struct kept *kept;
 static size_t nkept, capkept;
 static int keep_mode;
+static char *plain_events;      /* event text of the last plain `p config` and the input it belongs to */
+static uint8_t *plain_input; static size_t plain_len; static int plain_end;
 static void keep_path(const MPT_STRUCT(path) *p, const MPT_STRUCT(value) *val)
 {
 	MPT_STRUCT(buffer) *buf;
@@ -565,9 +567,20 @@ int main(void)
 			clear_events();
 			vals_bad = 0; refused = 0;
 			ret = mpt_parse_config(next, &pf, &ctx, record, 0);
-			keep_mode = 0;
 			keptres = release_kept();
 			ob_reset(); put_events();
+			/* a handler that keeps references must see the same elements as one that does not */
+			if (keep_mode) {
+				if (plain_events && plain_len == input_len && plain_end == input_end
+				    && (!input_len || !memcmp(plain_input, input, input_len)) && strcmp(plain_events, ob)
+				    && !strcmp(keptres, "ok")) keptres = "differs";
+			}
+			else if (fail_at < 0) {
+				free(plain_events); plain_events = strdup(ob);
+				free(plain_input); plain_input = malloc(input_len + 1); if (input_len) memcpy(plain_input, input, input_len);
+				plain_len = input_len; plain_end = input_end;
+			}
+			keep_mode = 0;
 			printf("R %s nest=%s vals=%s refused=%s kept=%s | C %s", ret < 0 ? "err" : "ok", ret < 0 ? "-" : nest_verdict(), vals_bad ? vals_bad : "ok",
 			       refused ? "yes" : "no", keptres, ob);
 			put_internals(ret, &ctx);
@@ -713,6 +726,7 @@ int main(void)
 			name_sect = name_opt = 0xff;
 			clear_events();
 			strcpy(last_stat, "-");
+			free(plain_events); plain_events = 0; free(plain_input); plain_input = 0;
 			now = __sanitizer_get_current_allocated_bytes();
 			if (now != base_bytes && __lsan_do_recoverable_leak_check()) {
 				printf("FAULT leak bytes=%ld\n", (long) now - (long) base_bytes);
